@@ -5,7 +5,7 @@ from checks.harness import meta
 
 PROPERTY = "C12"
 LEVEL = "proof"
-LEAN_MODULES = ["Exetera.Props.C12", "Exetera.Props.C12Copy", "Exetera.Props.C12Map"]
+LEAN_MODULES = ["Exetera.Props.C12", "Exetera.Props.C12Copy", "Exetera.Props.C12Map", "Exetera.Props.C12Rest"]
 BASES = ["c03", "c04", "c16", "c05", "c18", "c12_copy"]
 MODES = {"quick": ["jit"], "thorough": ["jit", "nojit"], "search": ["jit"]}
 CASE_TIMEOUT = 15
